@@ -11,8 +11,16 @@ Tie:  H  hand model `lean/XrsVerif/Model/Trim.lean` (the four directional scans,
          driver against the numba kernels (float64 rasters 0x0..7x7, 16 lists each) and compare the four results.
 Oracle (independent of the model, from the property statement): the bounding box of the kept /
 selected cells computed with numpy set logic (NaN excluded when listed); the result must equal
-`raster[t:b+1, l:r+1]` cell for cell, with the coordinates and attrs of those positions, and must be
-empty when nothing is kept / selected.
+the positional window `[t:b+1, l:r+1]` of the input cell for cell, with *every* coordinate variable of the
+input restricted to those positions (and no other), the attrs of each coordinate variable, the raster's
+attrs, dims and the requested name, and must be empty when nothing is kept / selected.
+
+Coordinate-kind dimension (every stream through the public wrappers): `ck` / `zck` of a case describe what
+the raster carries besides its cells -- dims y,x / other names / none given; per axis ascending, descending,
+fractional, int, datetime, string, duplicated, unsorted labels or no coordinate variable at all; attrs on the
+coordinate variables; scalar coordinates (spatial_ref, band, time); 2-D lon / lat on (y, x) or transposed;
+extra 1-D coordinates along one dim; the input's `.name`; the raster attrs (`gen_ck`, `build`).  The model
+(`Raster.coords`, `window`) receives every coordinate variable with its labels as codes.
 
 Generators: shapes 1x1..6x6 incl. single row / column; dtypes f8/f4/i8/i4; values {0,1,2,3,NaN,+-inf};
 a target box placed so that the kept cells touch every subset of the four raster borders; nothing kept;
@@ -29,6 +37,7 @@ different numbers (nextafter in float32 / float64, relative 1e-5..1e-9, absolute
 stored values with the listed values as exact numbers (Fractions; NaN matches a listed NaN for trim only).
 """
 import itertools
+import json
 import math
 from fractions import Fraction
 
@@ -51,21 +60,186 @@ def arr(rows, dtype, layout="C"):
     return np.asfortranarray(a) if layout == "F" else a
 
 
-def coords(h, w, style):
-    if style == "desc":
-        return [float(10 * (h - i)) for i in range(h)], [100.0 + j for j in range(w)]
-    if style == "frac":
-        return [0.25 * i - 1 for i in range(h)], [-3.5 + 0.5 * j for j in range(w)]
-    return [float(i) for i in range(h)], [float(j) for j in range(w)]
+# ---------------------------------------------------------------- coordinate kinds
+# What a raster carries besides its cells.  A *coordinate kind* `ck` is a small JSON dict from which `build` makes the
+# DataArray deterministically (so a recorded case replays):
+#   dims    [d0, d1] names of the two dimensions, or None = `xr.DataArray(a)` (xarray's `dim_0`, `dim_1`, no coordinates)
+#   y, x    the dimension coordinate of each axis: one of AXIS_KINDS ("none" = the dimension has no coordinate variable)
+#   cattrs  attrs (units / axis / long_name) on the dimension coordinates and on the auxiliary ones
+#   scalars names of scalar (0-d) coordinates: `spatial_ref`, `band`, `time` (what rioxarray / `.sel(band=1)` leave behind)
+#   aux2d   two 2-D auxiliary coordinates `lon`, `lat` on (d0, d1)  ("yx"), or stored transposed on (d1, d0) ("xy")
+#   aux1d   axes ("y" / "x") that carry an extra 1-D non-index coordinate (`row_label` strings / `col_km` floats)
+#   rname   `.name` of the input raster;  attrs  "std" / "empty" / "rich": the raster's own attrs
+AXIS_KINDS = ["asc", "desc", "frac", "asc100", "fracx", "int", "datetime", "str", "dup", "dupmix", "unsorted", "none"]
+LEGACY_CK = {"desc": ("desc", "asc100"), "frac": ("frac", "fracx"), "plain": ("asc", "asc")}
+UNSORTED = [5.0, 2.0, 9.0, 0.5, 7.0, -3.0, 4.0, 11.0]
+COORD_ATTRS = {"y": {"units": "m", "axis": "Y", "long_name": "northing"}, "x": {"units": "m", "axis": "X", "long_name": "easting"}}
+SCALARS = {"spatial_ref": (0, {"crs_wkt": "EPSG:32633", "grid_mapping_name": "transverse_mercator"}),
+           "band": (1, {"long_name": "band index"}),
+           "time": (np.datetime64("2021-06-01T12:00:00", "ns"), {"standard_name": "time"})}
+RASTER_ATTRS = {"std": {"res": (1, 1), "crs": "EPSG:4326", "nodata": -1}, "empty": {},
+                "rich": {"res": (0.5, 0.25), "crs": "EPSG:32633", "nodata": -9999, "units": "km", "Description": "a raster"}}
+ATTRS = RASTER_ATTRS["std"]
 
 
-def mk(a, style, attrs):
+def axis_labels(n, kind):
+    """the labels of a dimension coordinate of length n (None: no coordinate variable)"""
+    if kind == "none":
+        return None
+    if kind == "asc":
+        return np.array([float(i) for i in range(n)])
+    if kind == "desc":
+        return np.array([float(10 * (n - i)) for i in range(n)])
+    if kind == "frac":
+        return np.array([0.25 * i - 1 for i in range(n)])
+    if kind == "asc100":
+        return np.array([100.0 + j for j in range(n)])
+    if kind == "fracx":
+        return np.array([-3.5 + 0.5 * j for j in range(n)])
+    if kind == "int":
+        return np.array([100 + 3 * i for i in range(n)], dtype=np.int64)
+    if kind == "datetime":
+        return np.datetime64("2020-01-30", "ns") + np.arange(n) * np.timedelta64(1, "D")
+    if kind == "str":
+        return np.array([f"r{i:02d}" for i in range(n)])
+    if kind == "dup":                     # monotonic, not unique
+        return np.array([float(i // 2) for i in range(n)])
+    if kind == "dupmix":                  # neither monotonic nor unique
+        return np.array([float(i % 2) for i in range(n)])
+    if kind == "unsorted":                # unique, not monotonic
+        return np.array(UNSORTED[:n])
+    raise ValueError(kind)
+
+
+def norm_ck(case, which="ck"):
+    """the coordinate kind of a case; cases recorded before the dimension existed carry `coords` = desc / frac / plain"""
+    ck = case.get(which)
+    if ck is None:
+        y, x = LEGACY_CK[case.get("coords", "plain")] if which == "ck" else ("asc", "asc")
+        ck = dict(dims=["y", "x"], y=y, x=x, rname="orig", attrs="std" if which == "ck" else "empty")
+    return ck
+
+
+_TEMPLATES = {}
+
+
+def build(a, ck):
+    """the DataArray described by `ck` around the array `a` (constructing one costs ~1 ms, a deep copy of a template of
+    the same shape and kind with the data swapped in 0.15 ms: coordinates and attrs are fresh objects every time)"""
+    key = (a.shape, json.dumps(ck, sort_keys=True))
+    if key not in _TEMPLATES:
+        if len(_TEMPLATES) > 20000:
+            _TEMPLATES.clear()
+        _TEMPLATES[key] = build_new(np.zeros(a.shape), ck)
+    return _TEMPLATES[key].copy(deep=True, data=a)
+
+
+def build_new(a, ck):
     h, w = a.shape
-    ys, xs = coords(h, w, style)
-    return xr.DataArray(a, dims=["y", "x"], coords={"y": np.array(ys), "x": np.array(xs)}, attrs=dict(attrs), name="orig")
+    attrs = dict(RASTER_ATTRS[ck.get("attrs", "std")])
+    if ck.get("dims") is None:
+        return xr.DataArray(a, attrs=attrs, name=ck.get("rname"))
+    d0, d1 = ck["dims"]
+    cattrs = bool(ck.get("cattrs"))
+    co = {}
+    for d, n, kind, ax in ((d0, h, ck.get("y", "asc"), "y"), (d1, w, ck.get("x", "asc"), "x")):
+        lab = axis_labels(n, kind)
+        if lab is not None:
+            co[d] = xr.Variable((d,), lab, attrs=dict(COORD_ATTRS[ax]) if cattrs else None)
+    for nm in ck.get("scalars") or []:
+        val, at = SCALARS[nm]
+        co[nm] = xr.Variable((), val, attrs=dict(at) if cattrs else None)
+    if ck.get("aux2d"):
+        lon = np.array([[10.0 + 0.5 * j + 0.01 * i for j in range(w)] for i in range(h)])
+        lat = np.array([[50.0 - 0.25 * i + 0.001 * j for j in range(w)] for i in range(h)])
+        if ck["aux2d"] == "xy":           # stored with the dimensions the other way round
+            co["lon"] = xr.Variable((d1, d0), np.ascontiguousarray(lon.T), attrs={"units": "degrees_east"} if cattrs else None)
+            co["lat"] = xr.Variable((d1, d0), np.ascontiguousarray(lat.T), attrs={"units": "degrees_north"} if cattrs else None)
+        else:
+            co["lon"] = xr.Variable((d0, d1), lon, attrs={"units": "degrees_east"} if cattrs else None)
+            co["lat"] = xr.Variable((d0, d1), lat, attrs={"units": "degrees_north"} if cattrs else None)
+    for ax in ck.get("aux1d") or []:
+        if ax == "y":
+            co["row_label"] = xr.Variable((d0,), np.array([f"row-{(7 * i) % 5}" for i in range(h)]),
+                                          attrs={"comment": "labels"} if cattrs else None)
+        else:
+            co["col_km"] = xr.Variable((d1,), np.array([1.5 * ((3 * j) % 4) for j in range(w)]),
+                                       attrs={"units": "km"} if cattrs else None)
+    return xr.DataArray(a, dims=[d0, d1], coords=co, attrs=attrs, name=ck.get("rname"))
 
 
-ATTRS = {"res": (1, 1), "crs": "EPSG:4326", "nodata": -1}
+def gen_ck(rng):
+    """a coordinate kind: about half the rasters are the everyday ones (dimension coordinates only)"""
+    u = rng.random()
+    if u < 0.07:
+        return dict(dims=None, rname=rng.choice([None, "orig"]), attrs=rng.choice(["std", "std", "empty"]))
+    dims = rng.choice([["y", "x"], ["y", "x"], ["y", "x"], ["lat", "lon"], ["row", "col"], ["x", "y"], ["northing", "easting"]])
+    common = ["asc", "desc", "frac", "asc100", "fracx"]
+    rare = ["int", "datetime", "str", "dup", "dupmix", "unsorted", "none", "none"]
+    ck = dict(dims=dims, y=rng.choice(common if rng.random() < 0.6 else rare),
+              x=rng.choice(common if rng.random() < 0.6 else rare),
+              rname=rng.choice([None, "orig", "orig"]), attrs=rng.choice(["std", "std", "std", "empty", "rich"]))
+    if rng.random() < 0.1:
+        ck["y"] = ck["x"] = "none"        # dims named, no coordinate at all
+    if rng.random() < 0.5:
+        return ck
+    if rng.random() < 0.5:
+        ck["cattrs"] = True
+    if rng.random() < 0.5:
+        names = [n for n in SCALARS if n not in dims]
+        ck["scalars"] = sorted(rng.sample(names, rng.randrange(1, len(names) + 1)))
+    if rng.random() < 0.4 and not {"lon", "lat"} & set(dims):
+        ck["aux2d"] = rng.choice(["yx", "yx", "xy"])
+    if rng.random() < 0.4:
+        ck["aux1d"] = rng.choice([["y"], ["x"], ["y", "x"]])
+    return ck
+
+
+def gen_zck(rng, ck):
+    """the zones raster of a crop case: on the values' grid with the same coordinates (the usual case), or with its own
+    dims / coordinates / none at all (crop is positional: only the cells of `zones` count)"""
+    u = rng.random()
+    if u < 0.5:
+        return dict(ck, attrs="empty")
+    if u < 0.65:
+        return dict(dims=ck.get("dims") or ["y", "x"], y="none", x="none", rname=None, attrs="empty")
+    z = gen_ck(rng)
+    z["attrs"] = "empty"
+    return z
+
+
+# a fixed rotation for the exhaustive stream (no random choice there): every axis kind and every extra once
+CK_ROT = [
+    dict(dims=["y", "x"], y="desc", x="asc100", rname="orig", attrs="std"),
+    dict(dims=None, rname=None, attrs="std"),
+    dict(dims=["y", "x"], y="none", x="none", rname="orig", attrs="empty"),
+    dict(dims=["lat", "lon"], y="frac", x="fracx", cattrs=True, rname="orig", attrs="rich"),
+    dict(dims=["y", "x"], y="asc", x="asc", scalars=["band", "spatial_ref", "time"], rname=None, attrs="std"),
+    dict(dims=["y", "x"], y="desc", x="asc", aux2d="yx", cattrs=True, rname="orig", attrs="std"),
+    dict(dims=["row", "col"], y="datetime", x="str", aux1d=["y", "x"], rname="orig", attrs="std"),
+    dict(dims=["y", "x"], y="dup", x="dupmix", rname="orig", attrs="std"),
+    dict(dims=["y", "x"], y="unsorted", x="int", aux2d="xy", scalars=["spatial_ref"], rname="orig", attrs="std"),
+    dict(dims=["x", "y"], y="none", x="asc100", aux1d=["y"], cattrs=True, rname=None, attrs="empty"),
+    dict(dims=["y", "x"], y="str", x="none", scalars=["band"], aux1d=["x"], aux2d="yx", cattrs=True, rname="orig", attrs="rich"),
+]
+
+
+def ck_tags(ck, pre="ck"):
+    if ck.get("dims") is None:
+        return [f"{pre}:no-dims-no-coords"]
+    t = [f"{pre}:y={ck.get('y', 'asc')}", f"{pre}:x={ck.get('x', 'asc')}",
+         f"{pre}:dims=" + ("y,x" if ck["dims"] == ["y", "x"] else "other")]
+    extras = [k for k in ("cattrs", "scalars", "aux2d", "aux1d") if ck.get(k)]
+    t += [f"{pre}:{k}" for k in extras] or [f"{pre}:plain"]
+    return t
+
+
+def rasters(case):
+    """(zones or None, the raster that is sliced) as DataArrays"""
+    if case["fn"] == "trim":
+        return None, build(arr(case["data"], case["dtype"], case.get("layout", "C")), norm_ck(case))
+    z = build(arr(case["data"], case["dtype"], case.get("layout", "C")), norm_ck(case, "zck"))
+    return z, build(arr(case["values"], case["vdtype"]), norm_ck(case))
 
 
 def ex_arg(case):
@@ -75,24 +249,17 @@ def ex_arg(case):
     return tuple(vals) if case["ex_form"] == "tuple" else list(vals)
 
 
-def call(case):
+def call(case, rs=None):
     from xrspatial.zonal import crop, trim
     try:
+        z, src = rs or rasters(case)
+        kw = {"name": case["name"]} if case.get("name") else {}
         if case["fn"] == "trim":
-            ra = mk(arr(case["data"], case["dtype"], case.get("layout", "C")), case["coords"], ATTRS)
-            kw = {}
             if case["ex_form"] != "default":
                 kw["values"] = ex_arg(case)
-            if case.get("name"):
-                kw["name"] = case["name"]
-            out = trim(ra, **kw)
-            src = ra
+            out = trim(src, **kw)
         else:
-            z = mk(arr(case["data"], case["dtype"], case.get("layout", "C")), "plain", {})
-            v = mk(arr(case["values"], case["vdtype"]), case["coords"], ATTRS)
-            kw = {"name": case["name"]} if case.get("name") else {}
-            out = crop(z, v, ex_arg(case), **kw)
-            src = v
+            out = crop(z, src, ex_arg(case), **kw)
     except Exception as ex:  # numba typing errors etc.: reported, never silently skipped
         return type(ex).__name__, str(ex)[:160], None
     return "ok", out, src
@@ -117,36 +284,96 @@ def attrs_tok(attrs=None):
     return ";".join(f"{k}={attrs[k]}" for k in sorted(attrs)).replace(" ", "")
 
 
-def canon_real(out):
-    """canonical text of a result DataArray"""
+# Coordinate labels are opaque to the model (`Raster κ τ` is generic in the label type): on the wire a label is the
+# position of its first occurrence in the *input's* coordinate variable, so equal labels get equal codes, and a label
+# of the result that the input does not have is -1.
+def flat_labels(values):
+    return [repr(x) for x in np.asarray(values).ravel(order="C").tolist()]
+
+
+def code_table(values):
+    tab = {}
+    for i, k in enumerate(flat_labels(values)):
+        tab.setdefault(k, i)
+    return tab
+
+
+def var_entry(name, var, dims, table):
+    """`name~flags~attrs~grid` of one coordinate variable of a raster with dimensions `dims`: the labels as codes, laid
+    out on (dims[0], dims[1]) -- a variable stored the other way round is transposed and marked `@T`; flags say which of
+    the two dimensions it has"""
+    vd = tuple(var.dims)
+    vals = np.asarray(var.values)
+    if len(vd) == 2 and vd == (dims[1], dims[0]):
+        vals, vd, name = vals.T, (dims[0], dims[1]), name + "@T"
+    if any(d not in dims for d in vd) or len(vd) != len(set(vd)) or (len(vd) == 2 and vd != tuple(dims)):
+        return f"{name}~?{','.join(map(str, vd))}~{attrs_tok(var.attrs)}~?"
+    flags = ("y" if dims[0] in vd else "-") + ("x" if dims[1] in vd else "-")
+    h = vals.shape[vd.index(dims[0])] if dims[0] in vd else 1
+    w = vals.shape[vd.index(dims[1])] if dims[1] in vd else 1
+    codes = [table.get(k, -1) for k in flat_labels(vals)]
+    grid = "empty" if not codes else f"{h}x{w}:" + ",".join(str(c) for c in codes)
+    return f"{name}~{flags}~{attrs_tok(var.attrs)}~{grid}"
+
+
+def aux_tok(da, src):
+    """every coordinate variable of `da` (dimension coordinates included: they carry attrs too), labels coded by `src`"""
+    dims = tuple(da.dims)
+    dv, sv = da.coords.variables, src.coords.variables
+    return "/".join(var_entry(str(nm), dv[nm], dims, code_table(sv[nm].values) if nm in sv else {})
+                    for nm in sorted(dv, key=str))
+
+
+def dim_codes(da, src, k):
+    d = da.dims[k] if len(da.dims) == 2 else None
+    dv, sv = da.coords.variables, src.coords.variables
+    if d is None or d not in dv:
+        return "-"
+    tab = code_table(sv[d].values) if d in sv else {}
+    return ",".join(str(tab.get(x, -1)) for x in flat_labels(dv[d].values))
+
+
+def canon_real(out, src):
+    """canonical text of a result DataArray (labels coded by the input raster `src`)"""
     attrs = attrs_tok(out.attrs)
+    aux = aux_tok(out, src) if len(out.dims) == 2 else "?dims"
     if out.size == 0:
-        return f"empty|{attrs}|{out.name}"
+        return f"empty|{attrs}|{out.name}|{aux}"
     v = np.asarray(out.values)
     h, w = v.shape
     g = f"{h}x{w}:" + ",".join(ntok(x) for x in v.ravel(order="C").tolist())
-    return "|".join([g, ",".join(ntok(x) for x in out.coords["y"].values.tolist()),
-                     ",".join(ntok(x) for x in out.coords["x"].values.tolist()), attrs, str(out.name)])
+    return "|".join([g, dim_codes(out, src, 0), dim_codes(out, src, 1), attrs, str(out.name), aux])
 
 
-def request(case):
+def canon_model(rep, src):
+    """the driver's reply without the (unobservable) bounds; the model always has a label function per axis: for a
+    dimension without coordinate variable its field is blanked"""
+    f = rep.split("|")
+    if len(f) == 7:
+        for k in (0, 1):
+            if src.dims[k] not in src.coords.variables:
+                f[2 + k] = "-"
+        return "|".join(f[1:])
+    return rep.split("|", 1)[1] if "|" in rep else rep
+
+
+def request(case, rs=None):
     name = case.get("name") or case["fn"]
+    z, src = rs or rasters(case)
+    a = np.asarray(src.values)
+    h, w = a.shape
+    ys, xs = dim_codes(src, src, 0), dim_codes(src, src, 1)
+    # a dimension without coordinate variable: the model is handed the positions, its reply is blanked (canon_model)
+    tail = (" ys=" + (",".join(str(i) for i in range(h)) if ys == "-" else ys)
+            + " xs=" + (",".join(str(j) for j in range(w)) if xs == "-" else xs)
+            + f" attrs={attrs_tok(src.attrs)} name={name} aux={aux_tok(src, src)}")
     if case["fn"] == "trim":
-        a = arr(case["data"], case["dtype"])
-        h, w = a.shape
-        ys, xs = coords(h, w, case["coords"])
         ex = ["nan"] if case["ex_form"] == "default" else [ev.model_tok(t) for t in case["ex"]]
-        return (f"trim data={h}x{w}:" + ",".join(tok(x) for x in a.ravel().tolist()) + " ex=" + ",".join(ex)
-                + " ys=" + ",".join(tok(y) for y in ys) + " xs=" + ",".join(tok(x) for x in xs)
-                + f" attrs={attrs_tok()} name={name}")
-    z = arr(case["data"], case["dtype"])
-    v = arr(case["values"], case["vdtype"])
-    ys, xs = coords(v.shape[0], v.shape[1], case["coords"])
-    return (f"crop zones={z.shape[0]}x{z.shape[1]}:" + ",".join(tok(x) for x in z.ravel().tolist())
-            + f" values={v.shape[0]}x{v.shape[1]}:" + ",".join(tok(x) for x in v.ravel().tolist())
-            + " ids=" + ",".join(ev.model_tok(t) for t in case["ex"])
-            + " ys=" + ",".join(tok(y) for y in ys) + " xs=" + ",".join(tok(x) for x in xs)
-            + f" attrs={attrs_tok()} name={name}")
+        return f"trim data={h}x{w}:" + ",".join(tok(x) for x in a.ravel().tolist()) + " ex=" + ",".join(ex) + tail
+    zv = np.asarray(z.values)
+    return (f"crop zones={zv.shape[0]}x{zv.shape[1]}:" + ",".join(tok(x) for x in zv.ravel().tolist())
+            + f" values={h}x{w}:" + ",".join(tok(x) for x in a.ravel().tolist())
+            + " ids=" + ",".join(ev.model_tok(t) for t in case["ex"]) + tail)
 
 
 # ---------------------------------------------------------------- oracle
@@ -164,29 +391,62 @@ def hits(case, drop_nan=False):
 
 
 def expected(case, src, mask):
+    """the minimal window (t, b, l, r) of the mask, None when it is empty"""
     if not mask.any():
         return None
     ys, xs = np.where(mask.any(axis=1))[0], np.where(mask.any(axis=0))[0]
-    return src[int(ys[0]):int(ys[-1]) + 1, int(xs[0]):int(xs[-1]) + 1]
+    return int(ys[0]), int(ys[-1]), int(xs[0]), int(xs[-1])
 
 
-def same(out, exp, name):
-    if out.shape != exp.shape:
-        return f"window shape {out.shape}, minimal window is {exp.shape}"
-    a, b = np.asarray(out.values).ravel().tolist(), np.asarray(exp.values).ravel().tolist()
-    if not all((x != x and y != y) or x == y for x, y in zip(a, b)):
-        return "window cells differ from the original at the same positions"
-    if out.values.dtype != exp.values.dtype:
-        return f"dtype {out.values.dtype} != {exp.values.dtype}"
-    for d in ("y", "x"):
-        if list(out.coords[d].values) != list(exp.coords[d].values):
-            return f"{d} coordinates {list(out.coords[d].values)} expected {list(exp.coords[d].values)}"
-    if dict(out.attrs) != dict(exp.attrs):
-        return f"attrs {dict(out.attrs)} expected {dict(exp.attrs)}"
-    if out.dims != exp.dims:
-        return f"dims {out.dims}"
+def vals_equal(a, b):
+    a, b = np.asarray(a), np.asarray(b)
+    if a.shape != b.shape:
+        return False
+    return all((x != x and y != y) or x == y for x, y in zip(a.ravel().tolist(), b.ravel().tolist()))
+
+
+def same(out, src, win, name):
+    """None when `out` is the window `win` of `src`: its cells, *every* coordinate variable of the original restricted
+    to the window (no other one), the attrs of each coordinate variable, the raster's attrs, the dims, the requested
+    name.  Else (kind, text).  Written from the property text; positions are taken with plain numpy indexing."""
+    t, b, l, r = win
+    cells = np.asarray(src.values)[t:b + 1, l:r + 1]
+    if tuple(out.shape) != cells.shape:
+        return "window", f"window shape {tuple(out.shape)}, minimal window is {cells.shape}"
+    if not vals_equal(out.values, cells):
+        return "window", "window cells differ from the original at the same positions"
+    if out.values.dtype != cells.dtype:
+        return "window", f"dtype {out.values.dtype} != {cells.dtype}"
+    if tuple(out.dims) != tuple(src.dims):
+        return "window", f"dims {out.dims} expected {src.dims}"
+    sl = {src.dims[0]: slice(t, b + 1), src.dims[1]: slice(l, r + 1)}
+    svars, ovars = src.coords.variables, out.coords.variables
+    for d in src.dims:                    # the dimension coordinates first (the long-standing part of the oracle)
+        if d in svars and d in ovars:
+            want = np.asarray(svars[d].values)[sl[d]]
+            if not vals_equal(ovars[d].values, want):
+                return "window", f"{d} coordinates {list(ovars[d].values)} expected {list(want)}"
+    missing = sorted(str(n) for n in svars if n not in ovars)
+    if missing:
+        return "coords", (f"coordinate(s) {missing} of the original are missing from the result "
+                          f"(the result has {sorted(str(n) for n in ovars)})")
+    extra = sorted(str(n) for n in ovars if n not in svars)
+    if extra:
+        return "coords", f"the result has coordinate(s) {extra} that the original does not have"
+    for n in svars:
+        sv, ov = svars[n], ovars[n]
+        if tuple(ov.dims) != tuple(sv.dims):
+            return "coords", f"coordinate {n!r} has dims {ov.dims}, the original's has {sv.dims}"
+        want = np.asarray(sv.values)[tuple(sl[d] for d in sv.dims)]
+        if not vals_equal(ov.values, want):
+            return "coords", (f"coordinate {n!r} is {np.asarray(ov.values).tolist()}, the original restricted to the "
+                              f"window is {want.tolist()}")
+        if dict(ov.attrs) != dict(sv.attrs):
+            return "coords", f"attrs of coordinate {n!r}: {dict(ov.attrs)} expected {dict(sv.attrs)}"
+    if dict(out.attrs) != dict(src.attrs):
+        return "window", f"attrs {dict(out.attrs)} expected {dict(src.attrs)}"
     if out.name != name:
-        return f"name {out.name!r} expected {name!r}"
+        return "window", f"name {out.name!r} expected {name!r}"
     return None
 
 
@@ -198,29 +458,24 @@ def oracle(case, status, out, src):
     if fn == "crop" and case.get("vshape_differs"):
         return None                       # the property speaks of a values raster on the zones' grid
     name = case.get("name") or fn
-    mask = hits(case)
-    exp = expected(case, src, mask)
-    if exp is None:
+    win = expected(case, src, hits(case))
+    listed_nan = fn == "trim" and (case["ex_form"] == "default" or "nan" in case["ex"])
+    alt = expected(case, src, hits(case, drop_nan=True)) if listed_nan else None
+    if win is None:
         if out.size == 0:
             return None
         key = KEY_D18A if src.shape == (1, 1) and out.shape == (1, 1) else f"{fn}:nothing-kept"
-        if fn == "trim" and (case["ex_form"] == "default" or "nan" in case["ex"]):
-            alt = expected(case, src, hits(case, drop_nan=True))
-            if alt is not None and same(out, alt, name) is None and src.shape != (1, 1):
-                key = KEY_D5              # exactly what ignoring the listed NaN gives
+        if alt is not None and same(out, src, alt, name) is None and src.shape != (1, 1):
+            key = KEY_D5                  # exactly what ignoring the listed NaN gives
         return (key, f"{fn}: no cell is {'kept' if fn == 'trim' else 'selected'} but the result has shape {out.shape}, "
                      f"the minimal window is empty")
-    bad = same(out, exp, name)
+    bad = same(out, src, win, name)
     if bad is None:
         return None
-    key = f"{fn}:window"
-    if fn == "trim":
-        listed_nan = case["ex_form"] == "default" or any(t == "nan" for t in case["ex"])
-        if listed_nan:
-            alt = expected(case, src, hits(case, drop_nan=True))
-            if alt is not None and same(out, alt, name) is None:
-                key = KEY_D5              # exactly what ignoring the listed NaN gives
-    return (key, f"{fn}: {bad}; excluded/ids={case['ex'] if case['ex_form'] != 'default' else 'default (nan,)'}")
+    key = f"{fn}:{bad[0]}"
+    if alt is not None and same(out, src, alt, name) is None:
+        key = KEY_D5                      # exactly what ignoring the listed NaN gives
+    return (key, f"{fn}: {bad[1]}; excluded/ids={case['ex'] if case['ex_form'] != 'default' else 'default (nan,)'}")
 
 
 # ---------------------------------------------------------------- generators
@@ -266,7 +521,17 @@ def gen_grid(rng, h, w, hit_vals, miss_vals, mode):
 SHAPES = [(1, 1), (1, 2), (2, 1), (1, 5), (4, 1), (2, 2), (2, 3), (3, 3), (3, 5), (4, 4), (5, 3), (6, 6), (4, 6), (5, 5), (3, 4)]
 
 
-def gen_trim(rng):
+def few_sigs(case):
+    """every (dtype, layout, list type, tuple length) is one numba compilation (0.5-1 s): the quick tier keeps tuples and
+    Fortran order to the 64-bit dtypes, the thorough tier takes them everywhere"""
+    if case["dtype"] not in ("float64", "int64"):
+        case["layout"] = "C"
+        if case["ex_form"] == "tuple":
+            case["ex_form"] = "list"
+    return case
+
+
+def gen_trim(rng, quick_sigs=False):
     h, w = rng.choice(SHAPES)
     dtype = rng.choice(["float64", "float64", "float32", "int64", "int32"])
     isf = dtype.startswith("float")
@@ -289,11 +554,11 @@ def gen_trim(rng):
         mode = "none"
     grid, touched = gen_grid(rng, h, w, hit or miss, miss or hit, mode)
     case = dict(fn="trim", dtype=dtype, layout=rng.choice(["C", "C", "F"]), data=grid, ex=ex, ex_form=ex_form,
-                ex_num=ex_num, coords=rng.choice(["desc", "frac", "plain"]), name=rng.choice([None, None, "t2"]))
-    return case, dict(mode=mode, touched=touched)
+                ex_num=ex_num, ck=gen_ck(rng), name=rng.choice([None, None, "t2"]))
+    return (few_sigs(case) if quick_sigs else case), dict(mode=mode, touched=touched)
 
 
-def gen_crop(rng):
+def gen_crop(rng, quick_sigs=False):
     h, w = rng.choice(SHAPES)
     dtype = rng.choice(["int64", "int32", "float64", "float32"])
     isf = dtype.startswith("float")
@@ -315,8 +580,9 @@ def gen_crop(rng):
     case = dict(fn="crop", dtype=dtype, layout=rng.choice(["C", "C", "F"]), data=grid, ex=ex,
                 ex_form=rng.choice(["list", "tuple"]), ex_num=ex_num, values=values, vdtype=vdtype,
                 vshape_differs=differs and vshape != (h, w),
-                coords=rng.choice(["desc", "frac", "plain"]), name=rng.choice([None, None, "c2"]))
-    return case, dict(mode=mode, touched=touched)
+                ck=gen_ck(rng), name=rng.choice([None, None, "c2"]))
+    case["zck"] = gen_zck(rng, case["ck"])
+    return (few_sigs(case) if quick_sigs else case), dict(mode=mode, touched=touched)
 
 
 # ---------------------------------------------------------------- edge values (harness/edge_values.py)
@@ -436,8 +702,9 @@ def gen_edge(rng, fn, quick_sigs=True):
         ex_form = "tuple" if (rng.random() < 0.3 and (len(listed) <= 2 and few if quick_sigs else True)) else "list"
     layout = rng.choice(["C", "C", "C", "F"]) if (dtype in ("float64", "uint8") or not quick_sigs) else "C"
     case = dict(fn=fn, dtype=dtype, layout=layout, data=grid, ex=[ev.vtok(v) for v in listed], ex_form=ex_form,
-                ex_num=ex_num, coords=rng.choice(["desc", "frac", "plain"]), name=rng.choice([None, None, "e2"]))
+                ex_num=ex_num, ck=gen_ck(rng), name=rng.choice([None, None, "e2"]))
     if fn == "crop":
+        case["zck"] = gen_zck(rng, case["ck"])
         vdtype = rng.choice(["float64", "float32", "int64", "uint8", "int16"])
         vpool = ["0", "1", "5", "9", "100"] + (["nan", "-2"] if vdtype.startswith("float") else [])
         case.update(values=[[rng.choice(vpool) for _ in range(w)] for _ in range(h)], vdtype=vdtype, vshape_differs=False)
@@ -446,35 +713,39 @@ def gen_edge(rng, fn, quick_sigs=True):
 
 def exhaustive(max_cells_shape):
     """every raster over {nan,0,1} of the given shapes x every exclusion set over {nan,0}"""
+    k = 0
     for (h, w) in max_cells_shape:
         for cells in itertools.product(["nan", "0", "1"], repeat=h * w):
             grid = [list(cells[i * w:(i + 1) * w]) for i in range(h)]
             for ex, form in ((["nan"], "default"), (["nan"], "list"), (["0"], "list"), (["nan", "0"], "list"),
                              (["0", "1"], "list"), (["nan", "0", "1"], "list")):
                 yield dict(fn="trim", dtype="float64", layout="C", data=grid, ex=ex, ex_form=form, ex_num="float",
-                           coords="desc", name=None)
+                           ck=CK_ROT[k % len(CK_ROT)], name=None)
+                k += 1
 
 
 # ---------------------------------------------------------------- the check
 def check_one(r, case, reqs, pend, tags):
-    status, out, src = call(case)
+    rs = rasters(case)
+    status, out, src = call(case, rs)
     bad = oracle(case, status, out, src)
     nt = any(t != case["data"][0][0] for row in case["data"] for t in row) or len(case["data"]) * len(case["data"][0]) == 1
     r.case(case, desc=case if len(r.samples) < 6 else None, nontrivial=nt,
-           tags=tags + [f"fn:{case['fn']}", f"status:{status}", f"dtype:{case['dtype']}", f"ex:{case['ex_form']}/{case['ex_num']}",
+           tags=tags + ck_tags(norm_ck(case)) + (ck_tags(norm_ck(case, "zck"), "zck") if case["fn"] == "crop" else [])
+           + [f"fn:{case['fn']}", f"status:{status}", f"dtype:{case['dtype']}", f"ex:{case['ex_form']}/{case['ex_num']}",
                         f"shape:{'1xN' if len(case['data']) == 1 else ('Nx1' if len(case['data'][0]) == 1 else 'HxW')}"]
            + (["empty-result"] if status == "ok" and out.size == 0 else []))
     if bad:
         r.fail(bad[0], bad[1], case)
-    reqs.append(request(case))
-    pend.append((case, status, canon_real(out) if status == "ok" else f"err:{status}"))
+    reqs.append(request(case, rs))
+    pend.append((case, status, canon_real(out, src) if status == "ok" else f"err:{status}", src))
     return bad
 
 
 def flush(r, reqs, pend):
     replies = Driver().ask(reqs)
-    for (case, status, real), rep in zip(pend, replies):
-        model = rep.split("|", 1)[1] if "|" in rep else rep      # drop the (unobservable) bounds
+    for (case, status, real, src), rep in zip(pend, replies):
+        model = canon_model(rep, src) if src is not None else rep
         if model != real:
             r.disagree("trim-crop-vs-model", case, real[:300], rep[:300])
     reqs.clear()
@@ -498,7 +769,9 @@ def declare(r):
         "NaN is not a zone id (crop compares with ==); an empty result is compared as 'empty' whatever its 0-sized shape",
         "crop with a values raster of another shape than zones: model = Python slice semantics, no oracle",
     ]
-    r.trusted[:] = ["numba compilation of _trim/_crop", "xarray positional slicing of DataArray (coords/attrs carried)"]
+    r.trusted[:] = ["numba compilation of _trim/_crop",
+                    "xarray positional slicing of a DataArray (what `raster[t:b+1, l:r+1]` does to cells, labels and every "
+                    "coordinate variable is the model's `window`; observed on rasters of every coordinate kind, not proved)"]
 
 
 def run(r, n_override=None):
@@ -512,6 +785,12 @@ def run(r, n_override=None):
               "of the dtype (ids >= 1e5, limits, 2^53, fractions) + foreign entries (nan, +-inf, negative, out of range, "
               "fractional) + aliases a cast would wrap onto a cell value, decoy cells next to the listed values "
               "(nextafter, rel 1e-5..1e-9, abs 1e-8..1e-12, +-1), modes box/frame/none/all/random; "
+              "every raster of these streams has a coordinate kind: dims y,x / lat,lon / row,col / x,y / northing,easting / "
+              "none given (7%); per axis labels ascending / descending / fractional / int / datetime / string / duplicated "
+              "(monotonic or not) / unsorted / no coordinate variable; half carry more: attrs on the coordinate variables, "
+              "scalar coordinates spatial_ref / band / time, 2-D lon / lat on (y,x) or transposed, extra 1-D coordinates along "
+              "y / x; input name None / set; raster attrs std / empty / rich; crop zones with the values' coordinates (50%), "
+              "none (15%) or their own (35%); the exhaustive stream rotates through 11 fixed kinds; "
               "plus il:trim / il:crop (layer T3): the ILang programs generated from _trim / _crop run by the Lean driver "
               "vs the numba kernels on float64 rasters 0x0..7x7 (empty, single row/column/cell, box / single hit / none / "
               "all / random) x 16 lists each (empty, NaN, duplicates, +-inf, -0.0, absent values), results compared exactly; "
@@ -525,7 +804,7 @@ def run(r, n_override=None):
         if bad:
             r.fail(bad[0], bad[1] + " [corpus]", case)
         reqs.append(request(case))
-        pend.append((case, status, canon_real(out) if status == "ok" else f"err:{status}"))
+        pend.append((case, status, canon_real(out, src) if status == "ok" else f"err:{status}", src))
     shapes = [(1, 1), (1, 2), (2, 1), (1, 3), (3, 1), (2, 2), (2, 3), (3, 2)]
     if r.tier == "thorough":
         shapes.append((3, 3))
@@ -536,7 +815,7 @@ def run(r, n_override=None):
                 flush(r, reqs, pend)
         r.exhaustive = f"every raster over {{nan,0,1}} of shapes {shapes} x 6 exclusion sets (trim)"
     for k in range(n_rand):
-        case, info = gen_trim(r.rng) if k % 2 == 0 else gen_crop(r.rng)
+        case, info = gen_trim(r.rng, r.tier == "quick") if k % 2 == 0 else gen_crop(r.rng, r.tier == "quick")
         check_one(r, case, reqs, pend, [f"mode:{info['mode']}", f"touch:{info['touched']}"])
         if len(reqs) >= 5000:
             flush(r, reqs, pend)
